@@ -84,6 +84,7 @@ ATOMS = {
     # shapes around the f-string fix producer: some must be rewritten, some must be left alone
     "fstring_pair": dict(codes=[], enable=["use_fstrings"], lines=["print(\"%s and %s {n}\" % pair)"], simple=True),
     "fstring_width": dict(codes=[], enable=["use_fstrings"], lines=["print(\"%5d|%-3s\" % ({n}, q))"], simple=True),
+    "fstring_width_s": dict(codes=[], enable=["use_fstrings"], lines=["print(\"item %8s|%-6s| {n}\" % (q, q))", "print(\"%4s\" % p)"], simple=False),
     "fstring_pct": dict(codes=[], enable=["use_fstrings"], lines=["print(\"100%% of %s {n}\" % q)"], simple=True),
     "fstring_dict": dict(codes=[], enable=["use_fstrings"], lines=["print(\"%(a)s {n}\" % {{\"a\": p}})"], simple=True),
     "fstring_repr": dict(codes=[], enable=["use_fstrings"], lines=["print(\"%r and %s {n}\" % (q, p))"], simple=True),
@@ -127,6 +128,21 @@ ATOMS = {
     "ls_str": dict(codes=["undefined_name"], lines=["ls_{n} = \"a\u2028b\x1cc\x0bd\"", "print(ls_{n}, undefined_{n})"], simple=False),
     "nonascii_before": dict(codes=["undefined_name"], lines=["print(\"h\u00e9llo w\u00f6rld \u4e16\u754c {n}\", undefined_{n})"], simple=True),
     "possibly_undef": dict(codes=["possibly_undefined_name"], lines=["if p:", "    maybe_{n} = {n}", "print(maybe_{n})"], simple=False),
+}
+
+# statements placed at MODULE level (they execute at import, so only shapes that run without raising)
+MODULE_ATOMS = {
+    "mod_bad_arg": (["takes_int(\"s{n}\")"], []),
+    "mod_bad_assign": (["MODV_{n}: int = \"s{n}\""], []),
+    "mod_bad_default": (["def md_{n}(x: int = \"s{n}\") -> None:", "    pass"], []),
+    "mod_bad_default_ml": (["def mdm_{n}(", "    x: int = \"s{n}\",", "    y: str = {n},", ") -> None:", "    pass"], []),
+    "mod_fstring": (["BASE_{n} = \"b{n}\"", "LABEL_{n} = \"%s!\" % BASE_{n}"], ["use_fstrings"]),
+    "mod_unused_ignore": (["FLAG_{n} = {n}  # static analysis: ignore[undefined_name]"], ["unused_ignore"]),
+    "class_attr_never_set": (["class CB_{n}:", "    kind: int = \"k{n}\"", "", "    def first(self) -> object:", "        return self.never_{n}", "",
+                              "    def second(self) -> object:", "        return [self.never_{n}, self.other_{n}]"], []),
+    "class_body_bad_call": (["class CC_{n}:", "    size = takes_int(\"c{n}\")", "    label = \"%s?\" % \"x\"", "", "    def m(self) -> int:", "        return {n}"], []),
+    "mod_missing_return": (["def mr_{n}(flag: bool) -> int:", "    if flag:", "        return {n}"], []),
+    "decorated_bad_default": (["@staticmethod", "def dec_{n}(x: int = \"s{n}\") -> None:", "    pass"], []),
 }
 
 # atoms for the asynq / await fix producers; only placed inside @asynq() functions
@@ -345,6 +361,14 @@ class Gen:
                 self.meta["atoms"].append("undef")
                 lines += ["", "def early_%d(): return undefined_%d" % (n, n), "", ""]
         lines += PRELUDE.split("\n")
+        if r.chance(self.opts.get("p_module_level", 0.3)):
+            for _ in range(r.randint(1, 3)):
+                name = r.choice(sorted(MODULE_ATOMS))
+                n = self.next_n()
+                self.meta["atoms"].append("module:" + name)
+                body, enable = MODULE_ATOMS[name]
+                self.meta.setdefault("module_enable", set()).update(enable)
+                lines += [l.format(n=n) for l in body] + ["", ""]
         for k in range(r.randint(1, 4)):
             lines += self.function(k) + ["", ""]
         while lines and lines[-1] == "":
@@ -397,7 +421,11 @@ class Gen:
             self.meta["features"].append("same_basename_in_subdir")
             first = sorted(files)[0]
             files["sub/" + first] = self.module("s0")
-        enable = sorted({c for a in self.meta["atoms"] if a in ATOMS for c in ATOMS[a].get("enable", [])})
+        enable = sorted({c for a in self.meta["atoms"] if a in ATOMS for c in ATOMS[a].get("enable", [])} | set(self.meta.pop("module_enable", set())))
+        if "unused_ignore" in enable and "module:class_attr_never_set" in self.meta["atoms"] and not with_known:
+            # recorded defect C16-K6 (late attribute-checker diagnostics vs unused_ignore): keep the
+            # combination to the trees that are allowed to hit known defects
+            enable = [c for c in enable if c != "unused_ignore"]
         self.meta["enable"] = enable
         self.meta["extra_args"] = ["--maximum-positional-args", "3"] if any(ATOMS.get(a, {}).get("needs_max_pos") for a in self.meta["atoms"]) else []
         self.meta["enabled_atoms"] = sorted(self.enabled_atoms)
